@@ -161,6 +161,34 @@ func vC05HasStrictElems(n *vC05Node) bool {
 	return false
 }
 
+// longest string or key in the tree
+func vC05MaxStr(n *vC05Node) int {
+	m := len(n.s)
+	for _, p := range n.props {
+		if len(p.key) > m {
+			m = len(p.key)
+		}
+		if x := vC05MaxStr(p.val); x > m {
+			m = x
+		}
+	}
+	return m
+}
+
+func vC05StrBucket(n int) string {
+	switch {
+	case n >= 65535:
+		return "65535"
+	case n >= 65533:
+		return "65533-65534"
+	case n >= 256:
+		return "256-65532"
+	case n >= 1:
+		return "1-255"
+	}
+	return "0"
+}
+
 func vC05CountNodes(n *vC05Node) int {
 	c := 1
 	for _, p := range n.props {
@@ -806,4 +834,22 @@ func vC05Hex(b []byte) string {
 		return fmt.Sprintf("%x..(%d bytes)", b[:48], len(b))
 	}
 	return fmt.Sprintf("%x", b)
+}
+
+// boundary trees named by the property's quantifier: strings and keys of 0, 1, 255, 256, 65534
+// and 65535 bytes, alone and nested, plus the extreme number patterns
+func vC05Boundary(r *vRng) []*vC05Node {
+	var out []*vC05Node
+	for _, l := range []int{0, 1, 255, 256, 65534, 65535} {
+		str := &vC05Node{kind: vC05Str, s: r.bytes(l)}
+		out = append(out, str)
+		out = append(out, &vC05Node{kind: vC05Obj, props: []vC05Prop{{key: r.bytes(l), val: str}, {key: []byte("z"), val: &vC05Node{kind: vC05Null}}}})
+		out = append(out, &vC05Node{kind: vC05Ecma, props: []vC05Prop{{key: []byte("k"), val: &vC05Node{kind: vC05Obj, props: []vC05Prop{{key: r.bytes(l), val: &vC05Node{kind: vC05Bool, b: true}}, {key: r.bytes(l), val: str}}}}}})
+	}
+	nums := &vC05Node{kind: vC05Obj}
+	for i, b := range vC05SpecialBits {
+		nums.props = append(nums.props, vC05Prop{key: []byte(fmt.Sprintf("n%d", i)), val: &vC05Node{kind: vC05Num, bits: b}})
+	}
+	out = append(out, nums)
+	return out
 }
